@@ -224,6 +224,24 @@ def replay_once(exe, prop, tape, env, timeout=300):
     return verdict, out
 
 
+def sanitizer_digest(text):
+    """First sanitizer / assert / abort lines plus the top frames, instead of a raw tail."""
+    lines = text.splitlines()
+    keep = []
+    for i, l in enumerate(lines):
+        if ('runtime error:' in l or 'ERROR: AddressSanitizer' in l or 'Assertion' in l or 'SUMMARY:' in l
+                or 'FATAL' in l or 'RSV hang' in l):
+            keep.append(l.strip())
+            for m in lines[i + 1:i + 7]:
+                if m.strip().startswith('#'):
+                    keep.append('  ' + m.strip()[:160])
+        if len(keep) > 24:
+            break
+    if not keep:
+        return text[-1500:]
+    return '\n'.join(keep)[:2500]
+
+
 def merge_stats(files):
     tot = dict(evaluations=0, pass_=0, fail=0, discard=0, inconclusive=0, timeouts=0, crashes=0, nontrivial=0,
                tape_bytes=0)
@@ -483,7 +501,7 @@ def run_rc_stage(prop, st, par, exe, seed, jobs, scratch, env, si):
             # the driver itself died: in-process harness crashed on the in-flight tape
             infl = glob.glob(os.path.join(scratch, 'inflight.%d.tape' % p.pid))
             with open(os.path.join(scratch, 'log-%d-%d.txt' % (si, w)), 'rb') as fh:
-                tail = fh.read()[-2500:].decode(errors='replace')
+                tail = sanitizer_digest(fh.read().decode(errors='replace'))
             if infl:
                 dst = os.path.join(scratch, '%s-crash-%d.tape' % (prop, p.pid))
                 with open(infl[0], 'rb') as fh:
